@@ -6,6 +6,8 @@ from concurrent.futures import ThreadPoolExecutor
 VERIF, REPO = '/verif', '/repo'
 src = os.path.abspath(sys.argv[1])
 props = [json.loads(l)['id'] for l in open(os.path.join(VERIF, 'properties.jsonl'))]
+if os.environ.get('CV_ONLY_PROPS'):
+    props = [p for p in props if p in os.environ['CV_ONLY_PROPS'].split(',')]
 cases = sorted(glob.glob(os.path.join(src, '*', 'patch.diff')))
 
 def run(pf):
